@@ -285,9 +285,8 @@ Proof.
     apply admit_cu_allowed in Hv as (_ & Hh & _). by apply (hier_root c Q), Hh.
   - apply admit_delete_allowed in Hv as (Hr & _). exists sr. by rewrite lookup_delete_ne.
   - by eauto.
-  - destruct (bool_decide (children_of Q n = []) && negb (bool_decide (n = root)) && negb (bool_decide (n = default_q))) eqn:Hg; [|by eauto].
-    apply andb_true_iff in Hg as [Hg Hgd]. apply andb_true_iff in Hg as [Hgk Hgr].
-    apply bool_decide_eq_true in Hgk. apply negb_true_iff, bool_decide_eq_false in Hgr, Hgd.
+  - destruct (negb (bool_decide (n = root)) && negb (bool_decide (n = default_q))) eqn:Hg; [|by eauto].
+    apply andb_true_iff in Hg as [Hgr Hgd]. apply negb_true_iff, bool_decide_eq_false in Hgr, Hgd.
     exists sr. by rewrite lookup_delete_ne.
   - destruct (Q !! n) as [o|] eqn:Hn; [|by eauto].
     destruct (decide (n = root)) as [->|Hne]; [|exists sr; by rewrite lookup_insert_ne].
@@ -295,9 +294,9 @@ Proof.
 Qed.
 
 Lemma shape_step c Q r :
-  1 <= max_depth c -> ShapeInv c Q -> ShapeInv c (apply_if_admitted c Q r).
+  1 <= max_depth c -> req_safe Q r -> ShapeInv c Q -> ShapeInv c (apply_if_admitted c Q r).
 Proof.
-  intros Hmax [Hroot Hinv]. split; [by apply root_inv_step|]. unfold apply_if_admitted.
+  intros Hmax Hsafe [Hroot Hinv]. split; [by apply root_inv_step|]. unfold apply_if_admitted.
   destruct (allowed (verdict_of c Q r)) eqn:Hv; [|done]. apply allowed_eq in Hv.
   destruct r as [n s|n s|n|n|n|n a st]; simpl in *.
   - (* CREATE *)
@@ -329,12 +328,11 @@ Proof.
     destruct (Hinv _ _ Hm Hmr) as (k & Hk & Hkle). exists k. split; [|done].
     apply reach_delete_leaf; [|done..]. intros x sx Hx. by eapply children_nil.
   - done.
-  - destruct (bool_decide (children_of Q n = []) && negb (bool_decide (n = root)) && negb (bool_decide (n = default_q))) eqn:Hg; [|done].
-    apply andb_true_iff in Hg as [Hg Hgd]. apply andb_true_iff in Hg as [Hgk Hgr].
-    apply bool_decide_eq_true in Hgk. apply negb_true_iff, bool_decide_eq_false in Hgr, Hgd.
+  - destruct (negb (bool_decide (n = root)) && negb (bool_decide (n = default_q))) eqn:Hg; [|done].
+    apply andb_true_iff in Hg as [Hgr Hgd]. apply negb_true_iff, bool_decide_eq_false in Hgr, Hgd.
     intros m sm Hm Hmr. apply lookup_delete_Some in Hm as [Hne Hm].
     destruct (Hinv _ _ Hm Hmr) as (k & Hk & Hkle). exists k. split; [|done].
-    apply reach_delete_leaf; [|done..]. intros x sx Hx. by eapply children_nil.
+    apply reach_delete_leaf; [|done..]. intros x sx Hx. eapply children_nil; [exact Hsafe|exact Hx].
   - (* status update *)
     destruct (Q !! n) as [o|] eqn:Hn; [|done].
     intros m sm Hm Hmr.
@@ -352,9 +350,12 @@ Proof.
   apply IH. by apply Hstep.
 Qed.
 
-Theorem shape_history c Q0 rs :
-  1 <= max_depth c -> ShapeInv c Q0 -> ShapeInv c (run_history c Q0 rs).
-Proof. intros Hmax. apply history_inv. intros Q r. by apply shape_step. Qed.
+Theorem shape_history c rs : forall Q0,
+  1 <= max_depth c -> safe_history c Q0 rs -> ShapeInv c Q0 -> ShapeInv c (run_history c Q0 rs).
+Proof.
+  unfold run_history. induction rs as [|r rs IH]; intros Q0 Hmax Hsafe H0; simpl; [done|].
+  destruct Hsafe as [Hr Hrest]. apply IH; [done..|]. by apply shape_step.
+Qed.
 
 Lemma reach_no_self_parent Q n s k :
   reach Q n k -> Q !! n = Some s -> n <> root -> qparent s <> Some n.
@@ -452,7 +453,7 @@ Proof.
     by apply QueueOk_with_alloc, spec_ok_QueueOk.
   - intros m sm Hm. apply lookup_delete_Some in Hm as [_ Hm]. by eapply Hinv.
   - done.
-  - destruct (bool_decide (children_of Q n = []) && negb (bool_decide (n = root)) && negb (bool_decide (n = default_q))); [|done].
+  - destruct (negb (bool_decide (n = root)) && negb (bool_decide (n = default_q))); [|done].
     intros m sm Hm. apply lookup_delete_Some in Hm as [_ Hm]. by eapply Hinv.
   - destruct (Q !! n) as [o|] eqn:Hn; [|done].
     intros m sm Hm. apply lookup_insert_Some in Hm as [[_ <-]|[_ Hm]]; [|by eapply Hinv].
@@ -816,11 +817,11 @@ Proof.
 Qed.
 
 Lemma sum_step c Q r :
-  1 <= max_depth c -> ShapeInv c Q -> PerQueueInv Q -> SumInv Q ->
+  1 <= max_depth c -> req_safe Q r -> ShapeInv c Q -> PerQueueInv Q -> SumInv Q ->
   SumInv (apply_if_admitted c Q r).
 Proof.
-  intros Hmax Hshape Hper Hsum.
-  pose proof (shape_step c Q r Hmax Hshape) as Hshape'.
+  intros Hmax Hsafe Hshape Hper Hsum.
+  pose proof (shape_step c Q r Hmax Hsafe Hshape) as Hshape'.
   unfold apply_if_admitted in *.
   destruct (allowed (verdict_of c Q r)) eqn:Hv; [|done]. apply allowed_eq in Hv.
   destruct r as [n s|n s|n|n|n|n a st]; simpl in *.
@@ -834,7 +835,7 @@ Proof.
     + intros m sm d Hm. by destruct (QueueOk_nonneg sm (Hper _ _ Hm) d) as (_ & _ & ?).
     + intros m sm d Hm. by destruct (QueueOk_nonneg sm (Hper _ _ Hm) d) as (_ & ? & _).
   - done.
-  - destruct (bool_decide (children_of Q n = []) && negb (bool_decide (n = root)) && negb (bool_decide (n = default_q))); [|done].
+  - destruct (negb (bool_decide (n = root)) && negb (bool_decide (n = default_q))); [|done].
     destruct Hsum as [Hg Hd]. split; apply sumF_delete; try done.
     + intros m sm d Hm. by destruct (QueueOk_nonneg sm (Hper _ _ Hm) d) as (_ & _ & ?).
     + intros m sm d Hm. by destruct (QueueOk_nonneg sm (Hper _ _ Hm) d) as (_ & ? & _).
@@ -906,9 +907,8 @@ Proof.
   - apply admit_delete_allowed in Hv as (Hr & Hd & _). rewrite lookup_delete_ne; [done|].
     destruct Hn as [-> | ->]; done.
   - done.
-  - destruct (bool_decide (children_of Q m = []) && negb (bool_decide (m = root)) && negb (bool_decide (m = default_q))) eqn:Hg; [|done].
-    apply andb_true_iff in Hg as [Hg Hgd]. apply andb_true_iff in Hg as [Hgk Hgr].
-    apply negb_true_iff, bool_decide_eq_false in Hgr, Hgd.
+  - destruct (negb (bool_decide (m = root)) && negb (bool_decide (m = default_q))) eqn:Hg; [|done].
+    apply andb_true_iff in Hg as [Hgr Hgd]. apply negb_true_iff, bool_decide_eq_false in Hgr, Hgd.
     rewrite lookup_delete_ne; [done|]. destruct Hn as [-> | ->]; done.
   - destruct (Q !! m); [|done]. apply lookup_insert_is_Some'. by right.
 Qed.
@@ -1365,10 +1365,10 @@ Proof.
 Qed.
 
 Theorem cap_step c Q r :
-  1 <= max_depth c -> ShapeInv c Q -> CapInv Q -> CapInv (apply_if_admitted c Q r).
+  1 <= max_depth c -> req_safe Q r -> ShapeInv c Q -> CapInv Q -> CapInv (apply_if_admitted c Q r).
 Proof.
-  intros Hmax Hshape Hinv.
-  pose proof (shape_step c Q r Hmax Hshape) as Hshape'.
+  intros Hmax Hsafe Hshape Hinv.
+  pose proof (shape_step c Q r Hmax Hsafe Hshape) as Hshape'.
   unfold apply_if_admitted in *.
   destruct (allowed (verdict_of c Q r)) eqn:Hv; [|done]. apply allowed_eq in Hv.
   destruct r as [n s|n s|n|n|n|n a st]; simpl in *.
@@ -1378,7 +1378,7 @@ Proof.
     eapply (cu_cap c Q n s (with_status (qalloc o) (qstate o) s) (Some o)); eauto.
   - by apply cap_delete.
   - done.
-  - destruct (bool_decide (children_of Q n = []) && negb (bool_decide (n = root)) && negb (bool_decide (n = default_q))); [|done]. by apply cap_delete.
+  - destruct (negb (bool_decide (n = root)) && negb (bool_decide (n = default_q))); [|done]. by apply cap_delete.
   - destruct (Q !! n) as [o|] eqn:Hn; [|done]. eapply cap_agree; eauto.
 Qed.
 
@@ -1620,9 +1620,9 @@ Definition TreeInv (c : cfg) (Q : queues) : Prop :=
   ShapeInv c Q /\ PerQueueInv Q /\ SumInv Q /\ CapInv Q.
 
 Lemma tree_step c Q r :
-  1 <= max_depth c -> TreeInv c Q -> TreeInv c (apply_if_admitted c Q r).
+  1 <= max_depth c -> req_safe Q r -> TreeInv c Q -> TreeInv c (apply_if_admitted c Q r).
 Proof.
-  intros Hmax (Hs & Hp & Hsum & Hcap). split; [|split; [|split]].
+  intros Hmax Hsafe (Hs & Hp & Hsum & Hcap). split; [|split; [|split]].
   - by apply shape_step.
   - by apply per_queue_step.
   - by apply sum_step.
@@ -1630,10 +1630,18 @@ Proof.
 Qed.
 
 Theorem tree_history c rs : forall Q0,
-  1 <= max_depth c -> TreeInv c Q0 -> TreeInv c (run_history c Q0 rs).
+  1 <= max_depth c -> safe_history c Q0 rs -> TreeInv c Q0 -> TreeInv c (run_history c Q0 rs).
 Proof.
-  unfold run_history. induction rs as [|r rs IH]; intros Q0 Hmax H0; simpl; [done|].
-  apply IH; [done|]. by apply tree_step.
+  unfold run_history. induction rs as [|r rs IH]; intros Q0 Hmax Hsafe H0; simpl; [done|].
+  destruct Hsafe as [Hr Hrest]. apply IH; [done..|]. by apply tree_step.
+Qed.
+
+(* histories without finalizer removals are safe: the theorem without the hypothesis *)
+Definition no_gone (r : req) : Prop := match r with EnvGone _ => False | _ => True end.
+
+Lemma no_gone_safe c rs : Forall no_gone rs -> forall Q, safe_history c Q rs.
+Proof.
+  induction 1 as [|r rs Hr Hrs IH]; intros Q; simpl; [done|]. split; [by destruct r|apply IH].
 Qed.
 
 (* Status (allocated pods, state Open / Closed / Closing / Unknown) is no part of any clause:
@@ -1642,7 +1650,7 @@ Qed.
 Corollary tree_status_update c Q n a st :
   1 <= max_depth c -> TreeInv c Q -> TreeInv c (apply_req Q (EnvStatus n a st)).
 Proof.
-  intros Hmax H. pose proof (tree_step c Q (EnvStatus n a st) Hmax H) as Hs.
+  intros Hmax H. pose proof (tree_step c Q (EnvStatus n a st) Hmax I H) as Hs.
   unfold apply_if_admitted in Hs. simpl in *. destruct (Q !! n); simpl in Hs; done.
 Qed.
 
@@ -1785,6 +1793,57 @@ Proof.
   split; [apply tree_okb_sound; by vm_compute|]. split; [done|]. split; [by vm_compute|]. split; [by vm_compute|].
   split; [|by vm_compute].
   intros Hs. pose proof (shape_capacity_ready _ _ Hs) as Hr. by vm_compute in Hr.
+Qed.
+
+(* The one history that breaks the tree with serialised admissions (known finding
+   C10-child-under-terminating-parent): DELETE of p (held by a finalizer) is admitted, the webhook then
+   admits a CREATE under the terminating p, the finalizer is removed: the child's parent is gone. *)
+Definition term_Q : queues :=
+  list_to_map [(1, q_ None [] [] []); (3, q_ (Some 1) [] [] [])]%positive.
+Definition term_history : list req :=
+  [DeleteFin 3; Create 4 (q_ (Some 3) [] [] []); EnvGone 3]%positive.
+
+Theorem terminating_parent_dangling_refuted :
+  exists c Q rs, TreeInv c Q /\ 1 <= max_depth c /\
+    verdicts c Q rs = [VAllowed; VAllowed; VAllowed] /\
+    ~ safe_history c Q rs /\ ~ ShapeInv c (run_history c Q rs) /\ capacity_ready (run_history c Q rs) = false.
+Proof.
+  exists default_cfg, term_Q, term_history.
+  split; [apply tree_okb_sound; by vm_compute|]. split; [done|]. split; [by vm_compute|].
+  split; [|split; [|by vm_compute]].
+  - simpl. intros (_ & _ & H & _). by vm_compute in H.
+  - intros Hs. pose proof (shape_capacity_ready _ _ Hs) as Hr. by vm_compute in Hr.
+Qed.
+
+(* DELETE of a queue that carries a finalizer is validated exactly like DELETE *)
+Lemma delete_fin_guard c Q n :
+  verdict_of c Q (DeleteFin n) = VAllowed ->
+  n <> root /\ n <> default_q /\
+  exists s, Q !! n = Some s /\ (alloc_check c = true -> qalloc s = 0) /\
+            forall m sm, Q !! m = Some sm -> qparent sm <> Some n.
+Proof. exact (delete_guard c Q n). Qed.
+
+Lemma delete_fin_guardb_sound c Q n :
+  delete_guardb c Q (DeleteFin n) = true ->
+  n <> root /\ n <> default_q /\
+  exists s, Q !! n = Some s /\ (alloc_check c = true -> qalloc s = 0) /\
+            forall m sm, Q !! m = Some sm -> qparent sm <> Some n.
+Proof. exact (delete_guardb_sound c Q n). Qed.
+
+(* law 107's guard means: the queue an admitted DELETE (either kind) targets has no allocated pods *)
+Lemma delete_allocb_sound Q n s :
+  (delete_allocb Q (Delete n) = true \/ delete_allocb Q (DeleteFin n) = true) -> Q !! n = Some s -> qalloc s = 0.
+Proof.
+  unfold delete_allocb. intros [H|H] Hn; rewrite Hn in H; by apply bool_decide_eq_true in H.
+Qed.
+
+(* ... and with the flag on every admitted DELETE passes it *)
+Lemma delete_allocb_flag_on c Q n :
+  alloc_check c = true -> verdict_of c Q (Delete n) = VAllowed ->
+  delete_allocb Q (Delete n) = true /\ delete_allocb Q (DeleteFin n) = true.
+Proof.
+  intros Hf H. apply delete_guard in H as (_ & _ & s & Hn & Ha & _).
+  unfold delete_allocb. rewrite Hn. split; apply bool_decide_eq_true; by apply Ha.
 Qed.
 
 (* F3, first half: the validation as it was before the fix admits a.parent := c on
